@@ -17,7 +17,7 @@ CONSTANTS
   MaxUpdates = 0
 VIEW ViewGh
 INVARIANTS
-  Inv_C04_Escrow_ModH1
+  Inv_C04_Escrow
   Inv_C04_InOut
   Inv_C13_QueueSound
   Inv_C13_QueueComplete
@@ -30,7 +30,7 @@ PROPERTIES
   Act_C03_ClaimComplete
   Act_C03_RejectionsInert
   Act_C03_RefundAtExpiry
-  Act_C03_ExactlyOnce_ModH1
+  Act_C03_ExactlyOnce
   Act_C04_Current
   Act_C04_Limit
   Act_C04_Window
